@@ -141,6 +141,30 @@ def run(rep, tier, seed, replay=None):
             base_want[cid] = v.want
             rep.count("extreme-durations:" + fam)
 
+    # extra REQUEST settings of every size on answered queries: host names around every length the handshake encodes specially
+    # (127/128, 255/256, 16383/16384 bytes, tens of kilobytes), made of 1-, 2-, 3- and 4-byte characters so that every such
+    # byte offset falls inside a character for some of them; protocol versions at the i32 limits
+    for fam in ("mcjava", "mcauto"):
+        if fam not in netprops.FAMILIES:
+            continue
+        vs = [x for x in netprops.valid_cases(fam, seed + 18, 80 if tier == "quick" else 400) if not x.notwf and x.want.startswith("OK")]
+        hosts = []
+        for ch in ("a", "é", "€", "😀"):
+            w = len(ch.encode())
+            for target in (127, 128, 255, 256, 257, 16383, 16384, 40000):
+                for lead in range(w):
+                    hosts.append("x" * lead + ch * ((target - lead) // w + 1))
+        for i, host in enumerate(hosts if tier == "thorough" else hosts[:: 2]):
+            if not vs:
+                break
+            v = vs[i % len(vs)]
+            c = v.case()
+            c.args[2] = host.encode().hex()
+            c.args[1] = ["-1", "2147483647", "-2147483648", "0", "760"][i % 5]
+            cid = f"{v.id}hn{i}"
+            cases.append(c.line(cid))
+            rep.count("extreme-request-settings:" + fam)
+
     # the HTTP client (Eco) with the extreme durations, against a loopback HTTP server that answers: the client must not
     # compute anything with them that can overflow (implementation only; the HTTP client is a parameter of the model)
     http_lines, http_want = [], {}
